@@ -36,6 +36,7 @@ class Interp:
         self.trace = []          # call trace (function qnames) for evidence
         self.summaries = summaries or {}     # qname -> callable(interp, args, kwargs, node, st) overriding a function
         self.events = []         # rule-specific observations: (kind, data...)
+        self.cmp_affs = {}       # id(Compare node) -> [(op, left Aff, right Aff)] when every operand is an affine integer
         self._idiom_cache = {}
         self.watch = {}          # qname -> list of recorded (args, kwargs, result) for rule inspection
         self.loopsyms = {}
@@ -279,6 +280,17 @@ class Interp:
             return self.call_function(m, [f] + list(args), kwargs, st, node)
         if isinstance(f, ExtV):
             return self.call_prim(f, args, kwargs, node, st)
+        if isinstance(f, NamedTupleV):
+            items = list(args) + [None] * (len(f.fields) - len(args))
+            for k_, v_ in kwargs.items():
+                if k_ in f.fields:
+                    items[f.fields.index(k_)] = v_
+            if len(items) != len(f.fields) or any(i_ is None for i_ in items):
+                self.unsupported('namedtuple %s built with %d of %d fields' % (f.name, len(args) + len(kwargs), len(f.fields)), node)
+                return TopV('namedtuple')
+            r = Tup(items)
+            r.fields = list(f.fields)
+            return r
         if isinstance(f, PartialV):
             kw2 = dict(f.kwargs)
             kw2.update(kwargs)
